@@ -186,8 +186,8 @@ type vCloser struct {
 
 func (c *vCloser) Close() error {
 	c.calls++
-	if !nd.Symbolic() {
-		time.Sleep(2 * time.Millisecond) // natively: make "did not wait" observable
+	if !nd.Symbolic() && !c.fail {
+		time.Sleep(5 * time.Millisecond) // natively: succeeding closers are slow, failing ones return at once
 	}
 	c.returned = true
 	if c.fail {
@@ -342,4 +342,23 @@ func VerifC15Options() {
 			nd.Assert(b.log[len(expectFiles)+i] == e, "C15: the other loaders are applied in the order they were added")
 		}
 	}
+}
+
+// C14 with many closers (a fixed sequential schedule, since the count is the subject): batch or
+// pool boundaries must not skip or repeat a closer
+func VerifC14Many() {
+	n := []int{16, 17, 18, 33}[nd.Choose(4)]
+	var cs []*vCloser
+	s := &App{}
+	for i := 0; i < n; i++ {
+		c := &vCloser{id: i, fail: i%5 == 3}
+		cs = append(cs, c)
+		s.CloserComponents = append(s.CloserComponents, c)
+	}
+	s.Close()
+	for _, c := range cs {
+		nd.Assert(c.calls == 1, "C14: every closer is invoked exactly once by the time Close returns")
+		nd.Assert(c.returned, "C14: Close returns only after every closer's Close has returned")
+	}
+	nd.Cover("many closers")
 }
